@@ -39,8 +39,38 @@ def outcome(fn, *a):
         return ('exc', type(e).__name__)
 
 
+class IterFault(Exception):
+    """Raised by an argument's own iteration (a private class, like kkey.CmpFault)."""
+
+
+class _ItemsObj:
+    """An object that only offers items() (what Mapping.update documents next to sequences)."""
+
+    def __init__(self, result):
+        self._result = result
+
+    def items(self):
+        return self._result()
+
+
+def _raising(items):
+    for x in items:
+        yield x
+    raise IterFault('the iterable failed after %d items' % len(items))
+
+
 def build_arg(ctx, form, items):
     """Materialise an `update`/operator argument for the SUT."""
+    if form == 'raising':
+        # an iterable that fails part-way: yields `items`, then raises IterFault
+        if ctx.is_map:
+            return _ItemsObj(lambda: _raising(items))
+        return _raising(items)
+    if form == 'noniter':
+        # mappings: items() hands back something that cannot be iterated; sets: a non-iterable
+        return _ItemsObj(lambda: 5) if ctx.is_map else 5
+    if form == 'genpairs':
+        return ((k, v) for k, v in items)
     if ctx.is_map:
         if form == 'dict':
             return dict(items)
